@@ -100,3 +100,4 @@ func H_C15_SegwitDecEnc() {
 	zzverif.Bound("address string", "every string of L characters, L in the tier's range; hrp fixed to bc")
 	h_c15_decenc(L)
 }
+
